@@ -27,6 +27,16 @@ func main() {
 	case "explain":
 		os.Exit(explain(os.Args[2:]))
 	case "list":
+		if len(os.Args) > 2 && os.Args[2] == "-json" {
+			out := map[string]any{}
+			for _, id := range rules.Properties() {
+				p := rules.Get(id)
+				out[id] = map[string]any{"rules": p.Rules, "explanation": p.Explanation, "rule_text": rules.RuleText(p)}
+			}
+			b, _ := json.MarshalIndent(out, "", " ")
+			fmt.Println(string(b))
+			return
+		}
 		for _, id := range rules.Properties() {
 			p := rules.Get(id)
 			fmt.Printf("%s %s\n", id, strings.Join(p.Rules, " "))
